@@ -36,6 +36,8 @@ func Eval(c *core.Case) (v core.Verdict) {
 	// attributed to the case that caused it.
 	if !WaitQuiet(2 * time.Second) {
 		v.Features = append(v.Features, "goroutines-linger")
+		// stuck goroutines must not be attributed to the cases that follow
+		v.Restart = true
 	}
 	return v
 }
